@@ -1,7 +1,7 @@
 (* C11 — executable instantiation used by the correspondence check (no proofs). *)
 From Coq Require Import List NArith Bool.
 Import ListNotations.
-From Verif.C11 Require Export Model.
+From Verif.C11 Require Export Model Consts.
 
 Definition prop_eqb (a b : prop) : bool :=
   match a, b with
